@@ -73,7 +73,54 @@ static int assemble_native(const char *text, uint8_t *out, int *outlen) {
 #endif
 
 void harness(void) {
-#if defined(MODE_SAFE) || defined(MODE_NONPRINT)
+#if defined(MODE_SKIP)
+  /* a label, section or global line (arbitrary text around the marker) is
+   * skipped: success, nothing looked up, exactly that line consumed */
+  {
+    unsigned long kind = IN(NMAX + 2), lead = IN(NMAX + 3), tail = IN(NMAX + 4);
+    ASSUME(kind < 3 && lead <= 3 && tail <= 10);
+    static const char *const MARK[3] = { ":", "section", "global" };
+    int p = 0;
+    for (int i = 0; i < 3; i++) if ((unsigned long)i < lead) raw1[p++] = ' ';
+    if (kind == 0) {
+      /* label: name, colon */
+      unsigned long nl = IN(NMAX + 5);
+      ASSUME(nl >= 1 && nl <= 8);
+      for (int i = 0; i < 8; i++)
+        if ((unsigned long)i < nl) {
+          unsigned long b = IN(1 + i);
+          ASSUME((b >= 'a' && b <= 'z') || (b >= 'A' && b <= 'Z') || b == '_' || b == '.' || (i > 0 && b >= '0' && b <= '9'));
+          raw1[p++] = (char)b;
+        }
+    }
+    for (const char *m = MARK[kind]; *m; m++) raw1[p++] = *m;
+    for (int i = 0; i < 10; i++)
+      if ((unsigned long)i < tail) {
+        unsigned long b = IN(12 + i);
+        ASSUME(b >= 0x20 && b <= 0x7e);
+        raw1[p++] = (char)b;
+      }
+    raw1[p++] = '\n';
+    raw1[p++] = 'r'; raw1[p++] = 'e'; raw1[p++] = 't';
+    raw1[p] = 0;
+    int linelen = p - 3;
+    VF_REGION();
+#ifdef VF_CBMC
+    struct instr ins; memset(&ins, 0, sizeof ins);
+    int read_len = -1;
+    cur = 0;
+    int rc = __CPROVER_file_local_parser_c_str_to_instr(&ins, raw1, &read_len);
+    CHECK(rc == EXIT_SUCCESS, "a label / section / global line is accepted");
+    CHECK(!rec_called[0] && ins.key == SKIP, "and emits nothing (it is skipped)");
+    CHECK(read_len == linelen, "and exactly that line is consumed");
+#else
+    uint8_t out[4096]; int n;
+    int rc = assemble_native(raw1, out, &n);
+    printf("TEXT %sRC %d LEN %d\n", raw1, rc, n);
+    CHECK(rc == EXIT_SUCCESS && n == 1 && out[0] == 0xc3, "the line is skipped and the following 'ret' is assembled");
+#endif
+  }
+#elif defined(MODE_SAFE) || defined(MODE_NONPRINT)
   any_line(raw1, 0, 1, NMAX);
 #ifdef MODE_NONPRINT
   /* some byte above 0x7e occurs before the first line terminator */
